@@ -120,7 +120,9 @@ EXPORT errno_t _asctime_s_chk(char *dest, rsize_t dmax, const struct tm *tm,
 
     CHK_DEST_NULL("asctime_s")
     if (unlikely(dmax < 26)) {
-        invoke_safe_str_constraint_handler("asctime_s: dmax is too small", NULL,
+        if (dmax && dmax <= destbos)
+            dest[0] = '\0'; /* K.3.8.2: s[0] is set to the null character */
+        invoke_safe_str_constraint_handler("asctime_s: dmax is too small", dest,
                                            ESLEMIN);
         return ESLEMIN;
     }
@@ -137,6 +139,7 @@ EXPORT errno_t _asctime_s_chk(char *dest, rsize_t dmax, const struct tm *tm,
     }
 
     if (unlikely(tm == NULL)) {
+        dest[0] = '\0';
         invoke_safe_str_constraint_handler("asctime_s: tm is null", NULL,
                                            ESNULLP);
         return ESNULLP;
@@ -149,6 +152,7 @@ EXPORT errno_t _asctime_s_chk(char *dest, rsize_t dmax, const struct tm *tm,
         || tm->tm_gmtoff < -1036800 /* 12*86400 */
 #endif
     ) {
+        dest[0] = '\0';
         invoke_safe_str_constraint_handler(
             "asctime_s: a tm member is too small", NULL, ESLEMIN);
         return ESLEMIN;
@@ -162,6 +166,7 @@ EXPORT errno_t _asctime_s_chk(char *dest, rsize_t dmax, const struct tm *tm,
 #endif
     ) {
         /* does EOVERFLOW in asctime() */
+        dest[0] = '\0';
         invoke_safe_str_constraint_handler(
             "asctime_s: a tm member is too large", NULL, ESLEMAX);
         return ESLEMAX;
@@ -181,8 +186,10 @@ EXPORT errno_t _asctime_s_chk(char *dest, rsize_t dmax, const struct tm *tm,
     } else {
         char tmp[120];
         buf = asctime_r(tm, (char *)&tmp);
-        if (!buf)
+        if (!buf) {
+            dest[0] = '\0';
             return -1;
+        }
         len = strlen(buf);
         if (likely(len < dmax)) {
             strcpy_s(dest, dmax, buf);
@@ -204,6 +211,7 @@ EXPORT errno_t _asctime_s_chk(char *dest, rsize_t dmax, const struct tm *tm,
         strcpy_s(dest, dmax, buf);
     } else {
     esnospc:
+        dest[0] = '\0';
         invoke_safe_str_constraint_handler("asctime_s: dmax is too small", dest,
                                            ESNOSPC);
         return ESNOSPC;
